@@ -38,7 +38,9 @@ def run_cli(data, pattern="picture_%d.raw"):
 def decode_direct(data):
     """the decoder's own output (callback arguments), in order"""
     pics = []
-    res = B.validate(data, callback=lambda p, vp, pcm: pics.append((p, vp, pcm)))
+    info = {}
+    res = B.validate(data, callback=lambda p, vp, pcm: pics.append((p, vp, pcm)), info=info)
+    decode_direct.info = info
     return res, pics
 
 
@@ -82,6 +84,20 @@ def violates(data, pattern="picture_%d.raw"):
             return "non-conformant stream (%s) but exit status %s" % (res, code), res
         if "offset" not in out.lower() and "offset" not in err.lower():
             return "no located explanation in the report", res
+        # located: the offset named in the title (and handed to the viewer hint) is the error's own offending
+        # offset when it has one (0 included), the reader's position otherwise (model: reportedOffset)
+        import re
+        info = getattr(decode_direct, "info", {})
+        if "tell" in info:
+            want_off = info["offending_offset"] if info["offending_offset"] is not None else info["tell"]
+            m = re.search(r"Conformance error at bit offset (\d+)", out)
+            if not m:
+                return "the report has no 'Conformance error at bit offset N' title", res
+            if int(m.group(1)) != want_off:
+                return "the report locates the error at bit %s, the error's own offset is %s" % (m.group(1), want_off), res
+            hints = re.findall(r"offset (\d+)", out)
+            if info.get("hint_uses_offset") and str(want_off) not in hints:
+                return "the viewer hint uses offsets %s, the error's own offset is %s" % (hints, want_off), res
         want = expected_files(pics, pattern)  # pictures decoded before the error are still written
         for fn in want:
             if fn.endswith(".raw") and files.get(fn) != want[fn]:
